@@ -49,7 +49,12 @@ def diff(a, b, path="$"):
     if isinstance(a, list):
         # an undocumented exception is a crash on both sides whatever its class: outside the domain
         # of accepted schemas the model does not try to predict which Python exception it is
-        if a and b and a[0] == "crash" and b[0] == "crash":
+        if a and b and isinstance(a[0], str) and isinstance(b[0], str) and a[0] == "crash" and b[0] == "crash":
+            return None
+        # an exception raised by a user-supplied format function: the model calls it `custom`, the
+        # implementation side cannot know where a built-in exception class came from
+        if (len(a) == 2 and len(b) == 2 and isinstance(a[0], str) and isinstance(b[0], str)
+                and {a[0], b[0]} == {"custom", "crash"} and a[1] == b[1]):
             return None
         if len(a) != len(b):
             return "%s: len %d vs %d: %r vs %r" % (path, len(a), len(b), a, b)
